@@ -1,0 +1,135 @@
+//go:build verif
+
+package commands
+
+import (
+	"bufio"
+	"bytes"
+	"encoding/hex"
+	"fmt"
+	"io"
+	"os"
+	"strconv"
+	"strings"
+
+	"github.com/git-lfs/git-lfs/v3/errors"
+	"github.com/git-lfs/git-lfs/v3/filepathfilter"
+	"github.com/git-lfs/git-lfs/v3/lfs"
+	"github.com/spf13/cobra"
+)
+
+// Hidden sub-command for the verification harness (only with `-tags verif`):
+// `git-lfs verif-filter` feeds the real clean()/smudge() of this package from
+// a reader that delivers the payload in exactly the requested chunks, so that
+// short reads are deterministic inside the real command path.
+//
+// stdin: one case per line
+//   clean|smudge <hex file name|-> <size hint, -1 = stat> <chunk sizes c1,c2,..|-> <eof: 0 separate, 1 with last data> <hex payload|->
+// stdout: one line per case
+//   out=<hex|-> err=<class> rest=<bytes left unread in the input>
+
+type verifChunkReader struct {
+	data    []byte
+	chunks  []int
+	eofLast bool
+}
+
+func (r *verifChunkReader) Read(p []byte) (int, error) {
+	if len(r.data) == 0 {
+		return 0, io.EOF
+	}
+	n := len(r.data)
+	if len(r.chunks) > 0 {
+		if r.chunks[0] < n {
+			n = r.chunks[0]
+		}
+	}
+	if n > len(p) {
+		n = len(p)
+	}
+	if n == 0 && len(p) > 0 { // a zero-sized chunk: skip it
+		r.chunks = r.chunks[1:]
+		return r.Read(p)
+	}
+	copy(p, r.data[:n])
+	r.data = r.data[n:]
+	if len(r.chunks) > 0 {
+		r.chunks[0] -= n
+		if r.chunks[0] <= 0 {
+			r.chunks = r.chunks[1:]
+		}
+	}
+	if len(r.data) == 0 && r.eofLast {
+		return n, io.EOF
+	}
+	return n, nil
+}
+
+func verifErrClass(err error) string {
+	switch {
+	case err == nil:
+		return "nil"
+	case errors.IsNotAPointerError(err):
+		return "notptr"
+	case errors.IsCleanPointerError(err):
+		return "cleanptr"
+	default:
+		return "other"
+	}
+}
+
+func verifFilterCommand(cmd *cobra.Command, args []string) {
+	setupRepository()
+	gf := lfs.NewGitFilter(cfg)
+	filter := filepathfilter.New(nil, nil, filepathfilter.GitIgnore)
+	sc := bufio.NewReaderSize(os.Stdin, 1<<20)
+	out := bufio.NewWriter(os.Stdout)
+	defer out.Flush()
+	for {
+		line, rerr := sc.ReadString('\n')
+		f := strings.Fields(line)
+		if len(f) == 6 {
+			name := ""
+			if f[1] != "-" {
+				b, _ := hex.DecodeString(f[1])
+				name = string(b)
+			}
+			hint, _ := strconv.ParseInt(f[2], 10, 64)
+			var chunks []int
+			if f[3] != "-" {
+				for _, c := range strings.Split(f[3], ",") {
+					n, _ := strconv.Atoi(c)
+					chunks = append(chunks, n)
+				}
+			}
+			var data []byte
+			if f[5] != "-" {
+				data, _ = hex.DecodeString(f[5])
+			}
+			rd := &verifChunkReader{data: data, chunks: chunks, eofLast: f[4] == "1"}
+			var to bytes.Buffer
+			var err error
+			switch f[0] {
+			case "clean":
+				_, err = clean(gf, &to, rd, name, hint)
+			case "smudge":
+				_, err = smudge(gf, &to, rd, name, false, filter)
+			}
+			o := "-"
+			if to.Len() > 0 {
+				o = hex.EncodeToString(to.Bytes())
+			}
+			fmt.Fprintf(out, "out=%s err=%s rest=%d\n", o, verifErrClass(err), len(rd.data))
+			out.Flush()
+		} else if strings.TrimSpace(line) != "" {
+			fmt.Fprintln(out, "bad-op")
+		}
+		if rerr != nil {
+			return
+		}
+	}
+}
+
+func init() {
+	RegisterCommand("verif-filter", verifFilterCommand, nil)
+}
